@@ -12,12 +12,12 @@ open GenNames RegistryInv
 theorem getPackages_sound (accepts : Str → Bool) (standard novendor : Bool) :
     ∀ (ls : List Line) (acc : List (Str × Str)) (p n : Str),
       (p, n) ∈ getPackages accepts standard novendor ls acc →
-      (p, n) ∈ acc ∨ ∃ l ∈ ls, admits accepts standard novendor l = true ∧ unvendorPath l.path = p ∧ l.name = n
+      (p, n) ∈ acc ∨ ∃ l ∈ ls, passesFilters accepts standard novendor l = true ∧ unvendorPath l.path = p ∧ l.name = n
   | [], acc, p, n, h => Or.inl h
   | l :: ls, acc, p, n, h => by
       rw [getPackages] at h
-      have lift : ((p, n) ∈ acc ∨ ∃ l' ∈ ls, admits accepts standard novendor l' = true ∧ unvendorPath l'.path = p ∧ l'.name = n) →
-          ((p, n) ∈ acc ∨ ∃ l' ∈ l :: ls, admits accepts standard novendor l' = true ∧ unvendorPath l'.path = p ∧ l'.name = n) := by
+      have lift : ((p, n) ∈ acc ∨ ∃ l' ∈ ls, passesFilters accepts standard novendor l' = true ∧ unvendorPath l'.path = p ∧ l'.name = n) →
+          ((p, n) ∈ acc ∨ ∃ l' ∈ l :: ls, passesFilters accepts standard novendor l' = true ∧ unvendorPath l'.path = p ∧ l'.name = n) := by
         intro h'
         rcases h' with h' | ⟨l', hm, h'⟩
         · exact Or.inl h'
@@ -40,7 +40,7 @@ theorem getPackages_sound (accepts : Str → Bool) (standard novendor : Bool) :
                 rcases getPackages_sound accepts standard novendor ls _ p n h with h' | ⟨l', hm, h'⟩
                 · rcases mem_insert h' with h'' | h''
                   · refine Or.inr ⟨l, List.mem_cons_self, ?_, ?_⟩
-                    · simp only [admits, Bool.and_eq_true, Bool.not_eq_true', bne_iff_ne, ne_eq, beq_iff_eq]
+                    · simp only [passesFilters, Bool.and_eq_true, Bool.not_eq_true', bne_iff_ne, ne_eq, beq_iff_eq]
                       refine ⟨⟨⟨?_, ?_⟩, ?_⟩, ?_⟩
                       · simpa using h1
                       · simpa using h2
@@ -58,7 +58,7 @@ theorem gennames_lines (accepts : Str → Bool) (standard novendor : Bool) (ls :
     ∃ l ∈ ls, l.standard = standard ∧ l.name ≠ b!"main" ∧ accepts l.path = true ∧ unvendorPath l.path = p ∧ l.name = n := by
   rcases getPackages_sound accepts standard novendor ls [] p n h with h' | ⟨l, hm, ha, hp, hn⟩
   · cases h'
-  · simp only [admits, Bool.and_eq_true, beq_iff_eq, bne_iff_ne, ne_eq] at ha
+  · simp only [passesFilters, Bool.and_eq_true, beq_iff_eq, bne_iff_ne, ne_eq] at ha
     exact ⟨l, hm, ha.1.1.1, ha.1.2, ha.2, hp, hn⟩
 
 -- the vendor rule on examples
